@@ -271,14 +271,16 @@ Qed.
 Definition offered_known (wd : world) (inv : invocation) : Prop :=
   Forall (fun t => exists ss, zassoc (t_model t) wd = Some ss /\ ss <> []) (i_offered inv).
 (* what the environment must provide for one invocation: known profiles, a request id names one request, non-negative
-   quantities on the workers, and no pending or offered request is already placed on a worker *)
+   quantities on the workers, no pending or offered request is already placed on a worker, and the LOAD/EVICT answer of
+   run_load only evicts profiles the named worker holds (load_pools returns) *)
 Definition inv_ok (wd : world) (inv : invocation) (st : cw_state) : Prop :=
-  offered_known wd inv /\ id_functional (st_recs st ++ i_offered inv) /\ pools_good (inv_pools inv) (st_recs st ++ i_offered inv).
+  offered_known wd inv /\ id_functional (st_recs st ++ i_offered inv) /\
+  exists ps, load_pools inv = Ok ps /\ pools_good ps (st_recs st ++ i_offered inv).
 (* schedule() returns a decision: no exception, no divergence *)
 Lemma cw_schedule_returns : forall wd ls inv st, world_wf wd -> bs_pos wd -> world_nonneg wd -> Inv_st wd st -> inv_ok wd inv st ->
   exists st' d, cw_schedule wd ls inv st = Ok (st', d).
 Proof.
-  intros wd ls inv st Hw Hp Hr Hi [Ho [HU Hpn]]. unfold cw_schedule, inv_pools in *.
+  intros wd ls inv st Hw Hp Hr Hi [Ho [HU [ps0 [Hlp Hpn]]]]. unfold cw_schedule. rewrite Hlp.
   destruct (admission_ok wd (i_now inv) (i_offered inv) st [] Ho) as [st1 [c Ea]]. rewrite Ea.
   destruct (admission_inv _ _ _ _ _ _ _ Hw Hi Ea) as [Hi1 Hrec1].
   assert (Hsub : incl (st_recs st1) (st_recs st ++ i_offered inv)).
@@ -286,7 +288,6 @@ Proof.
   assert (Ho0 : once_inv [] st1) by (split; [constructor|intros t []]).
   assert (Hg : forall ps, pools_good ps (st_recs st ++ i_offered inv) -> pools_good ps (st_recs st1)).
   { intros ps H. eapply Forall_impl; [|exact H]. intros q Hq. eapply Forall_impl; [|exact Hq]. intros x Hx. exact (w_good_incl x _ _ Hsub Hx). }
-  destruct (i_load inv) as [[l ps']|];
   match goal with |- context [infer_pools ?a ?b ?c ?d ?e] =>
     destruct (infer_pools_ok wd a b c d e _ HU Hsub Hw Hp Hr (Hg _ Hpn) Hi1 (Forall_nil _) Ho0) as [[st2 bs] Ei]; rewrite Ei end; eauto.
 Qed.
